@@ -39,6 +39,42 @@ def _p(n_quick, n_thorough, comps=None, **kw):
     d.update(kw)
     return d
 
+
+_TECH = 'machine-checked proof in Coq (invariants by induction over all schedules of a small-step model) + lockstep/free-running correspondence with the real executor'
+_NOTE = ('Proved (no axioms; Print Assumptions closed): the stated theorems about coq/Model/Exec.v for every network table / every schedule. '
+         'Tied by the differential run only (generator-bounded: <= 10 nodes, depth <= 3, workers <= 3, buffers <= 3, <= 45 scenario steps, <= 40 events): that Exec.v/Settle.v '
+         'are the Go code (channels, select-default, WaitGroup, Once as encoded); that flatten yields a wf_net is checked per case, not proved. '
+         'Harness nodes honour the node contract (async Shutdown waits for callbacks).')
+
+def _m(text, note=_NOTE, ref='DESIGN.md section 0 and section 8 (E1)'):
+    return dict(level_text=text, level_note=note, technique=_TECH, design_ref=ref)
+
+_MAN = {
+ 'C01': _m('Coq theorems (Props/C01.v): a global conservation law per channel and item for EVERY schedule (produced by the feeder = enqueued + discarded + pending; enqueued = buffered + handed over), '
+           'its channel-by-channel reading in well-formed networks (source->roots, results->children once per child and result, failures->own handler), nothing invented (entered <= supply), '
+           'no loss without discard flag, exactness at a clean end; spec_sound: the trace decision procedure used on the implementation accepts every model run. Tied to the code by lockstep gated '
+           'scenarios (model-predicted quiescent snapshot after every command: channel lengths, calls at the gate, counters) and free-running traces judged by trace_ok/terminal_ok; pruning of disabled '
+           'subtrees compared structurally on every case (model flatten vs real context tree).'),
+ 'C02': _m('Coq theorems (Props/C02.v): a failure is delivered to the node\'s own handler only, as (original event, that error); none without handler; successes/filters produce no report; '
+           'report conservation for every schedule incl. async error callbacks; at most once always, exactly once (minus counted discards) at a clean end. Real code: harness handler nodes check pointer '
+           'identity of the event and identity of the error value; handler kind (sync/async) compared with Context.NodeType.'),
+ 'C03': _m('Coq theorems (Props/C03.v): no schedule panics (no send on closed channel, no double close); Shutdown entered at most once, only after all processing calls returned, no event afterwards; '
+           'children/handler open until Shutdown returned so every pending delivery (incl. async callbacks fired inside Shutdown) targets an open channel; a clean return of Execute implies everything drained; '
+           'ordering clauses of the trace spec sound. Liveness (a clean run does end) is NOT proved; termination is observed on every scenario.'),
+ 'C04': _m('Coq theorems (Props/C04.v): no drop without the flag in any reachable state; full non-discarding buffer blocks the sender; a drop only at a full discarding buffer, losing exactly that event and '
+           'counted; delivery to an open discarding node is enabled in every state (never blocks); exact accounting at a clean end. "Never makes parent/siblings/source wait" on the real code is what the '
+           'lockstep correspondence observes with stalled discarding subtrees (roots, children, handlers).'),
+ 'C05': _m('PARTIAL. Coq theorems (Props/C05.v): calls in progress <= workers in every reachable state and equal to entered-minus-returned calls of the trace; every table node set up exactly once, nothing else, '
+           'before the source starts; trace clauses sound. Data-race freedom of the Go code is NOT provable in this family: supporting runs only (free-running driver under -race in the thorough tier).'),
+ 'C16': _m('Coq theorems (Props/C16.v): each counter equals the number of the corresponding observable events in every reachable state (fanout counts once; discarded = drops at that node); accounting identity '
+           'received = processed + filtered + failed + in-progress + in-flight always; terminal counter clauses sound. Real counters read through the Prometheus client per unique node id and compared after every '
+           'lockstep command and at the end of free runs.'),
+ 'C17': _m('PARTIAL. Coq theorems (Props/C17.v): once in waitTimeout the main goroutine needs only T ticks and its own timeout step whatever other goroutines do; prompt return when all workers returned; timeout never '
+           'early. The full statement is REFUTED on the faithful model (main blocked copying into a full root when the source stops: known finding F9, witness + proof that no schedule with the node stalled returns). '
+           'Wall-clock bound measured by the harness (elapsed <= T*1000+1500 ms).'),
+ 'C18': _m('Coq theorems (Props/C18.v): for every schedule the source events of the trace are exactly Prep0 Start0 End0err Prep1 Start1 ... PrepK StartK [EndK nil]: prepared before started, started once, restart only after an '
+           'error, nil return final; events only from a running incarnation. Real code: scripted failing sources (hard-wired 10 s pause), same channel/params observed by the harness.'),
+}
 # observable components (Judge/E1.v): 1 context tree, 2 channel lengths, 3 calls at the gate, 4 recv/proc/filt/fail counters,
 # 5 discarded counter, 6 Shutdown begun/ended, 7 Execute returned, 8 source state, 9 async in flight, 10 shape
 PROPS = {
@@ -51,3 +87,6 @@ PROPS = {
     'C17': _p(64, 1500, [7, 10]),
     'C18': _p(96, 1500, [8, 10]),
 }
+
+for _k in PROPS:
+    PROPS[_k]['manifest'] = _MAN[_k]
